@@ -83,10 +83,24 @@ def check_ties(c, rec):
         rec.tag("has_ties")
 
 
+# ---- enumerated grid of dim arguments (shared with C05), differentiated ------------------------------
+def enum_dims_grad(tier, shard, nshards):
+    from .c05 import enum_dims
+    for c in enum_dims("quick", shard, nshards):          # ranks <= 3 in both tiers (FD cost)
+        c["rg"] = [True] * len(c["xs"])
+        c["g"] = [((7 * j) % 11 - 5) / 4.0 for j in range(24)]
+        yield c
+
+
+def check_dim_grid(case, rec):
+    gradcheck.check_grad(ops.BY_NAME[case["op"]], case, rec)
+
+
 def subchecks():
     subs = []
     for op in ops.OPS:
         subs.append(SubCheck(op.name, gradcheck.make_check(op), (lambda op=op: ops.full_case(op)),
                              quick=400, thorough=3000, shards_quick=2, shards_thorough=4))
     subs.append(SubCheck("maxmin_ties", check_ties, tie_cases, quick=300, thorough=4000))
+    subs.append(SubCheck("dim_grid", check_dim_grid, None, enum=enum_dims_grad, exhaustive=True, shards_quick=8, shards_thorough=16))
     return subs
